@@ -410,7 +410,16 @@ def gen(seed, profile='general', big=False):
             mn = 0          # legal, degenerate: "no minimum
         ap = {'max_resource_partitions': parts, 'min_resources_per_workflow': mn,
               'resource_split': None}
-        if rng.random() < 0.25:
+        unsat = rng.random() < 0.04
+        if unsat:
+            # a minimum no reservation can ever satisfy on this cluster (infeasible for C05; whatever happens, no
+            # reservation below the minimum may appear)
+            ap['min_resources_per_workflow'] = nm + rng.randint(1, 2)
+        if unsat:
+            pass
+        elif rng.random() < 0.05:
+            ap['resource_split'] = {}           # explicitly empty (what topsim's own experiment helper passes)
+        elif rng.random() < 0.25:
             split = {}
             for o in obs:
                 lo = rng.randint(max(mn, 1), nm)
